@@ -149,7 +149,7 @@ def run(ctx):
         ctx.design("Aio/Stream.tla", "Stream_thorough.cfg", workers=8, timeout=1500, heap="12g",
                    note="both directions, 5 shapes (up to 3 chunks), 2 ops, 4 stream bytes, IOV 2")
         ctx.design("Aio/Stream.tla", "Stream_thorough3.cfg", workers=8, timeout=1500, heap="16g",
-                   note="both directions, 3 shapes, 3 ops, 3 stream bytes, IOV 1")
+                   note="both directions, 3 shapes, 3 ops, 2 stream bytes, IOV 1")
         ctx.design("Aio/Stream.tla", "Stream_thorough_r.cfg", workers=4, timeout=900, note="reads only: 6 shapes, 4 ops, 5 stream bytes, IOV 2")
         ctx.design("Aio/Stream.tla", "Stream_thorough_w.cfg", workers=4, timeout=900, note="writes only: 6 shapes, 4 ops, queue capacity 3, IOV 2")
         ctx.design("Aio/Stream.tla", "Stream_live.cfg", workers=4, timeout=1500,
@@ -195,9 +195,9 @@ def run(ctx):
     benign, hot = [], []
     reactors = (1 + ctx.seed % 3,) if q else (1, 2, 3)
     for reactor in reactors:
-        for v in (3, 4, 5):
+        for v in (2, 3, 4, 5):
             benign.append((reactor, v))
-        for v in ((0, 1) if q else (0, 1, 2, 6)):
+        for v in ((0, 1) if q else (0, 1, 6)):
             hot.append((reactor, v))
     for path, lst in ((race_ok, benign), (race_hot, hot)):
         with open(path, "w") as f:
